@@ -31,6 +31,11 @@ def common_kwargs(d, root, with_default=True):
         kw["required"] = True
     if with_default and d.get("default", {"t": "none"})["t"] != "none":
         kw["default"] = codec.to_py(d["default"], root)
+    if d.get("dcall") and "default" in kw:
+        # the default is given as a callable producing a fresh value each time it is asked
+        import copy
+
+        kw["default"] = lambda _v=kw["default"]: copy.deepcopy(_v)
     if d.get("sensitive"):
         kw["sensitive"] = True
     if d.get("fname"):
@@ -76,6 +81,13 @@ def build(cinco, d, root=None, with_default=True):
     if kind == "nofield":
         return None
     kw = common_kwargs(d, root, with_default)
+    cls = d.get("cls")
+    if cls == "port":
+        return F.PortField(**kw)
+    if cls == "loglevel":
+        return F.LogLevelField(**kw)
+    if cls == "appmode_default":
+        return F.ApplicationModeField(**kw)
     if kind == "any":
         return cinco.AnyField(**kw)
     if kind in ("string", "ipv4addr", "ipv4net", "hostname", "url", "filename"):
